@@ -682,9 +682,10 @@ func c11Configs(thorough bool) []c11Config {
 	var out []c11Config
 	keys := [][]string{nil, {"host"}, {"region"}, {"host", "region"}}
 	type topo struct{ nodes, ptpn int }
-	topos := []topo{{1, 1}, {2, 1}, {3, 1}, {4, 1}}
+	// most shards first: if the internal deadline cuts a run, the configurations where pruning can remove most are done
+	topos := []topo{{4, 1}, {3, 1}, {2, 1}, {1, 1}}
 	if thorough {
-		topos = append(topos, topo{1, 2}, topo{1, 3}, topo{2, 2}, topo{1, 4})
+		topos = []topo{{4, 1}, {2, 2}, {1, 4}, {3, 1}, {1, 3}, {2, 1}, {1, 2}, {1, 1}}
 	}
 	for _, tp := range topos {
 		n := tp.nodes * tp.ptpn
@@ -693,6 +694,9 @@ func c11Configs(thorough bool) []c11Config {
 				for _, atDB := range []bool{false, true} {
 					if atDB && len(key) == 0 {
 						continue
+					}
+					if atDB && !thorough && !(len(key) == 1 && key[0] == "host") {
+						continue // quick: database-level shard key only for [host]
 					}
 					// hash
 					for nos := 0; nos < n; nos++ {
